@@ -6,6 +6,8 @@ PROP = dict(
                  env=dict(quick=dict(VERIF_CASES=400), thorough=dict(VERIF_CASES=6000))),
             dict(name="market-exhaustive", go_test="TestC17", runner="C17", tiers=("thorough",),
                  env=dict(thorough=dict(VERIF_EXHAUSTIVE=7))),
+            dict(name="band-pipeline", go_test="TestC17Band", runner="C17-band",
+                 env=dict(quick=dict(VERIF_CASES=150), thorough=dict(VERIF_CASES=4000))),
         ],
         rule="case = (window size n in 1..6, gap, 1-3 assets, 5-40 ops: direct UpdatePriceList samples and whole market.BeginBlocker runs "
              "with validation/discard flags and short rate lists; samples from {0,1,small,2^62,2^63-1,2^63,2^64-1,random}); "
